@@ -9,6 +9,12 @@ use crate::tape::Gen;
 
 fn check_rt(what: &str, b: &[u8], rt: Result<RoundTrip, String>, ctx: &mut Ctx) -> CaseResult {
     let rt = rt.map_err(|e| format!("{}: {} (input {})", what, e, hex_trunc(b, 200)))?;
+    if !rt.debug_eq && crate::cbor::has_bignum_over_indefinite_bstr(b) {
+        // known finding: signature decided on the input shape alone
+        return ctx.known("decode-encode:bignum-tag-over-indefinite-length-bstr", "value changes across decode-encode-decode").map_err(|_| {
+            format!("{}: decode(encode(decode(b))) differs from decode(b) [tag 2/3 over an indefinite-length byte string]\n  b  = {}\n  b' = {}", what, hex_trunc(b, 300), hex_trunc(&rt.b1, 300))
+        });
+    }
     ensure!(rt.debug_eq, "{}: decode(encode(decode(b))) differs from decode(b)\n  b  = {}\n  b' = {}", what, hex_trunc(b, 300), hex_trunc(&rt.b1, 300));
     ensure!(rt.eq || rt.has_nan, "{}: decode(encode(v)) != v although no NaN is involved\n  b  = {}\n  b' = {}", what, hex_trunc(b, 300), hex_trunc(&rt.b1, 300));
     ensure!(rt.b2 == rt.b1, "{}: encoding is not a fixed point after one step\n  b   = {}\n  b'  = {}\n  b'' = {}", what, hex_trunc(b, 300), hex_trunc(&rt.b1, 300), hex_trunc(&rt.b2, 300));
@@ -47,6 +53,13 @@ fn check_all_types(b: &[u8], ctx: &mut Ctx) -> CaseResult {
 }
 
 fn case(g: &mut Gen, ctx: &mut Ctx) -> CaseResult {
+    if g.ratio(1, 25) {
+        // counter-signature chains around the decoder's nesting limit, in every form, inside a carrier
+        let d = 1 + g.below(14);
+        let b = crate::props::c01::chain_bytes(d, g.below(3), g.below(4), g.below(9));
+        ctx.classf(format!("gen:countersig-chain-depth-{}", if d <= 8 { "<=8" } else { ">8" }));
+        return check_all_types(&b, ctx);
+    }
     let types = all_types();
     let t = &types[g.below(types.len())];
     let mut f = if g.ratio(1, 8) { Faults::one() } else { Faults::none() };
